@@ -110,8 +110,8 @@ namespace
         void interrupt() { line.clear(); cursor = 0; curhist = 0; }
     };
 
-    enum Key { K_PRINT, K_BS, K_LEFT, K_RIGHT, K_UP, K_DOWN, K_DEL, K_ENTER, K_CTRLC, K_UNK2, K_UNK3, K_NOISE, K_FILL, K_N };
-    const char *K_NAME[] = {"char", "BS", "Left", "Right", "Up", "Down", "Del", "Enter", "^C", "ESC-x", "ESC-[-x", "noise", "fill"};
+    enum Key { K_PRINT, K_BS, K_LEFT, K_RIGHT, K_UP, K_DOWN, K_DEL, K_ENTER, K_CTRLC, K_UNK2, K_UNK3, K_NOISE, K_FILL, K_REINIT, K_N };
+    const char *K_NAME[] = {"char", "BS", "Left", "Right", "Up", "Down", "Del", "Enter", "^C", "ESC-x", "ESC-[-x", "noise", "fill", "re-init"};
 
     struct Sink : TermSink
     {
@@ -168,6 +168,7 @@ namespace
                 else if (style == 2) k = r.pick<int64_t>({K_ENTER, K_UP, K_UP, K_DOWN, K_PRINT, K_LEFT, K_CTRLC});
                 else k = (int64_t)r.below(K_NOISE);
                 if (big && r.chance(1, 6)) k = K_FILL;
+                if (r.chance(1, 70)) k = K_REINIT; // the owner restarts the session on the same object: a: new capacity, b: new history depth
                 // a: printable selector / enter variant / unknown byte ; b: noise byte
                 p.ops.push_back({k, (int64_t)r.below(95), (int64_t)r.below(256)});
             }
@@ -183,6 +184,7 @@ namespace
                 if (k == K_PRINT) s += std::string("'") + (char)(0x20 + mod(arg(o, 1), 95)) + "'";
                 if (k == K_ENTER) s += std::to_string(mod(arg(o, 1), 4));
                 if (k == K_NOISE) s += std::to_string(mod(arg(o, 2), 256));
+                if (k == K_REINIT) s += "(cap=" + std::to_string(2 + mod(arg(o, 1), 23)) + ",hist=" + std::to_string(1 + mod(arg(o, 2), 9)) + ")";
             }
             return s;
         }
@@ -210,6 +212,7 @@ namespace
             bool mid_edit = false, recalled = false;
             uint64_t keys = 0;
             std::vector<std::string> expected_lines;
+            size_t exec_base = 0; // lines executed before the last re-init belong to another geometry
             auto feed = [&](int b) {
                 term->feed(b);
                 last_byte = b;
@@ -259,6 +262,32 @@ namespace
                     last_nl_fired = false;
                     check_bounds("fill");
                     if (!noise) check_screen("fill");
+                    keys++;
+                    continue;
+                }
+                if (k == K_REINIT)
+                {
+                    // session restart on the same terminal object with another geometry: everything starts from scratch
+                    // (empty line, empty history, fresh screen)
+                    size_t H0 = H;
+                    cap = (size_t)(2 + mod(arg(o, 1), 23));
+                    H = (size_t)(1 + mod(arg(o, 2), 9));
+                    probe("reinit");
+                    if (H < H0 && !ref.hist.empty()) probe("reinit_with_smaller_history");
+                    sink.cap = cap;
+                    ref = RefEditor();
+                    ref.cap = cap;
+                    ref.H = H;
+                    bool strict = sink.scr.strict;
+                    sink.scr = Screen();
+                    sink.scr.strict = strict;
+                    term->start((unsigned)cap, (unsigned)H, &sink, PROMPTS[mod(p.c(2), 4)], echo);
+                    last_byte = -1;
+                    last_nl_fired = false;
+                    exec_base = sink.executed.size();
+                    tr.u(cap * 16 + H);
+                    check_bounds("re-init");
+                    if (!noise) check_screen("re-init");
                     keys++;
                     continue;
                 }
@@ -388,8 +417,8 @@ namespace
                 else
                 {
                     // noise configuration: only the safety half (bounds, memory, sane execute arguments)
-                    for (auto &l : sink.executed)
-                        if (l.size() >= cap) violate("C15/execute-args", "executed line of %zu characters for capacity %zu", l.size(), cap);
+                    for (size_t q = exec_base; q < sink.executed.size(); q++)
+                        if (sink.executed[q].size() >= cap) violate("C15/execute-args", "executed line of %zu characters for capacity %zu", sink.executed[q].size(), cap);
                 }
             }
             res.steps = keys;
